@@ -215,12 +215,46 @@ def mean_jobs(rng, tier):
         if rng.random() < 0.15 and not any(v == "nan" for row in X for v in row):
             j["dtype"] = rng.choice(["int32", "int64", "float32"])
         jobs.append(j)
+    jobs += mean_special_jobs(rng, 40 if tier == "quick" else 400)
     # larger values, one pass
     for t in range(100 if tier == "quick" else 1000):
         H, W = rng.choice([(3, 3), (4, 4), (2, 4)])
         X = rand_raster(rng, H, W, [-7, -2, 0, 3, 9, [1, 2], [5, 4]], 0.2)
         jobs.append({"kind": "mean", "X": X, "passes": 1, "excl": rng.choice([["nan"], [0], [3, 9]]),
                      "tag": "mean_values"})
+    return jobs
+
+
+# exclusion values that float32 cannot hold (0.1, -9999.9, 1/3) or that float32 rounds onto a neighbour (2^24+1):
+# (special value, other special cells in the raster, excludes, exact check possible for passes = 2)
+TENTH, NINES, THIRD, BIG = [1, 10], [-99999, 10], [1, 3], 16777217
+SPECIAL = [(TENTH, [], [TENTH], True), (TENTH, ["nan"], [TENTH, "nan"], True), (THIRD, [], [THIRD], True),
+           (NINES, [], [NINES], False), (BIG, [16777216, 16777216], [BIG], False)]
+
+
+def mean_special_jobs(rng, n, dask=False):
+    """float64 rasters holding cells EQUAL to an exclusion value that is not exactly representable in float32:
+    they must be passed through (and 2^24 must not be protected by an exclusion of 2^24+1)."""
+    jobs = []
+    for t in range(n):
+        sv, others, ex, exact2 = SPECIAL[t % len(SPECIAL)]
+        H, W = rng.choice([(3, 3), (3, 4), (4, 4), (2, 3)])
+        X = [[rng.choice([0, 1, 2, 3]) for _ in range(W)] for _ in range(H)]
+        cells = [(r, c) for r in range(H) for c in range(W)]
+        rng.shuffle(cells)
+        k = rng.randrange(1, 4)
+        for (r, c) in cells[:k]:
+            X[r][c] = sv
+        for v, (r, c) in zip(others + others, cells[k:k + rng.randrange(len(others), 2 * len(others) + 1)]):
+            X[r][c] = v
+        for p in (1, 2):
+            base = {"kind": "mean", "X": X, "passes": p, "excl": ex, "tag": "mean_special",
+                    "only_excl": 0 if (p == 1 or exact2) else 1}
+            if dask:
+                for ch in chunkings(H, W):
+                    jobs.append(dict(base, chunks=ch, tag="dask_mean_special"))
+            else:
+                jobs.append(base)
     return jobs
 
 
@@ -354,6 +388,7 @@ def dask_jobs(rng, tier, base):
         p = [2, 2, 1, 2, 0][t % 5]
         for ch in chunkings(H, W):
             jobs.append({"kind": "mean", "X": X, "passes": p, "excl": ex, "chunks": ch, "tag": "dask_mean"})
+    jobs += mean_special_jobs(rng, 10 if q else 100, dask=True)
     return jobs
 
 
@@ -382,7 +417,7 @@ def arrange(rng, jobs, nproc=NPROC):
 
 
 # ------------------------------------------------------------------------------------------ verdicts
-FIELDS = {"apply": ["kind", "lazy", "X", "K", "outs"], "mean": ["kind", "lazy", "X", "passes", "excl", "out"],
+FIELDS = {"apply": ["kind", "lazy", "X", "K", "outs"], "mean": ["kind", "lazy", "X", "passes", "excl", "out", "only_excl"],
           "conv": ["kind", "lazy", "X", "Wt", "out"], "hot": ["kind", "lazy", "X", "K", "out", "outneg", "band"],
           "ladder": ["kind", "lazy", "zs", "outs"]}
 FUNC = {"mean": "mean", "conv": "convolution_2d", "hot": "hotspots", "ladder": "hotspots"}
